@@ -625,6 +625,32 @@ impl Table {
         self.metadata.seqnos
     }
 
+    /// Verification hook: the block structure of the table as the block index describes it:
+    /// the index kind and, per index handle in index order, the handle's end key and seqno
+    /// and the items of the data block it points to (with their stored seqnos).
+    #[cfg(lsm_verif)]
+    #[doc(hidden)]
+    pub fn verif_blocks(
+        &self,
+    ) -> crate::Result<(&'static str, Vec<(UserKey, SeqNo, Vec<InternalValue>)>)> {
+        let kind = match &*self.block_index {
+            BlockIndexImpl::Full(_) => "full",
+            BlockIndexImpl::VolatileFull(_) => "volatile",
+            BlockIndexImpl::TwoLevel(_) => "two-level",
+        };
+        let mut out = Vec::new();
+        for handle in self.block_index.iter() {
+            let handle = handle?;
+            let block = self.load_data_block(handle.as_ref())?;
+            let items = block
+                .iter()
+                .map(|item| item.materialize(block.as_slice()))
+                .collect::<Vec<_>>();
+            out.push((handle.end_key().clone(), handle.seqno(), items));
+        }
+        Ok((kind, out))
+    }
+
     /// Returns the highest sequence number in the table.
     #[must_use]
     pub fn get_highest_seqno(&self) -> SeqNo {
